@@ -62,6 +62,8 @@ def flags_of(src):
         fl.add("d")
     if "def make(" in src:
         fl.add("closure")
+    if src.startswith("class K:"):
+        fl.add("inclass")
     if any(isinstance(n, (ast.Yield, ast.YieldFrom)) for n in _own_nodes(fdef)):
         fl.add("gen")
     if fdef.args.vararg is not None:
